@@ -217,9 +217,12 @@ def der_int_len(v: int) -> int:
     return v.bit_length() // 8 + 1
 
 
+def _tlv_len(n: int) -> int:
+    return 1 + (1 if n < 128 else 1 + (n.bit_length() + 7) // 8) + n
+
+
 def der_sig_len(r: int, s: int) -> int:
-    body = 4 + der_int_len(r) + der_int_len(s)
-    return body + (2 if body < 128 else 3 if body < 256 else 4)
+    return _tlv_len(_tlv_len(der_int_len(r)) + _tlv_len(der_int_len(s)))
 
 
 def der_outside(curve: str, length: int) -> bool:
